@@ -268,7 +268,7 @@ CLAIMED = {
              "exit applies last-write-wins, deletes only if requested, leaves untouched keys alone and empties the buffer (commit_spec); "
              "exit by exception at any position leaves the wrapped database exactly as it was with an empty buffer (abort_spec); a "
              "commit whose n-th write fails still empties the buffer and adds only buffered writes (commit_failure_spec). Tie: every "
-             "read / membership / copy(), the wrapped database during and after the block, buffer size, all exit kinds and positions.",
+             "read / membership / copy(), the wrapped database during and after the block, buffer size, all exit kinds and positions. copy() as it behaves is now a theorem (copy_spec: latest buffered write, ABSENT after a buffered delete, wrapped value otherwise = what commit(do_deletes=True) would leave, copy_eq_commit_with_deletes); several blocks in a row on one object: buffer empty after each, every key answers by its last COMMITTED action (runBlock_clean, runBlocks_spec); the harness re-uses the object for up to three blocks.",
         technique="Lean 4 proof (insertion-ordered dict model, induction over buffered actions) + correspondence check",
         design_ref="6/C17"),
     "C13": dict(
